@@ -95,7 +95,7 @@ func genReadCase(c *core.Ctx, i int, outOfRange int) *readCase {
 		sync[k] = byte(r.IntN(256))
 	}
 	var err error
-	rc.file, err = refavro.WriteContainer([]byte(rc.ds.S.JSON()), rc.ds.S, blocks, rc.ch, refavro.WriteOpts{Codec: rc.codec, Sync: sync, MetaCodecFirst: r.IntN(2) == 0, MetaBlocks: 1 + r.IntN(3)*r.IntN(2)})
+	rc.file, err = refavro.WriteContainer([]byte(rc.ds.S.JSON()), rc.ds.S, blocks, rc.ch, refavro.WriteOpts{MetaSized: i%5 == 3, Codec: rc.codec, Sync: sync, MetaCodecFirst: r.IntN(2) == 0, MetaBlocks: 1 + r.IntN(3)*r.IntN(2)})
 	if err != nil {
 		panic("harness: reference writer failed: " + err.Error())
 	}
@@ -223,6 +223,9 @@ func countReadCase(c *core.Ctx, rc *readCase) {
 }
 
 func runC03(c *core.Ctx, i int) {
+	if i%512 == 9 {
+		c03floatWidth(c)
+	}
 	rc := genReadCase(c, i, 40)
 	r := c.Rand(i, 1)
 	c.Journal(c.CurCase(), "schema="+trunc(rc.ds.S.JSON(), 200))
